@@ -2,6 +2,13 @@
 //   --syscalls N SEED            run N operations of every family between two marker writes
 //   --snapshot FILE N SEED       FILE: lines "hexaddr size name" of the library's writable symbols; compare before/after workload
 //   --threads T N SEED           T threads x N operations on private outputs sharing const inputs; compare with sequential replay
+//   --roinputs T N SEED          the shared inputs live in pages made read-only after initialisation: every family N times sequentially,
+//                                then T threads; a write to an input faults and is reported with the family in flight
+// In every mode the shared inputs are byte-snapshotted after initialisation and compared after the workload (INPUT-CHANGED lines):
+// the library must not write to objects it receives as const inputs (they may be shared between concurrent calls).
+#include <signal.h>
+#include <stddef.h>
+#include <sys/mman.h>
 #include <pthread.h>
 #include <sched.h>
 #include <stdint.h>
@@ -14,9 +21,11 @@
 #include "wkdibe/wkdibe.h"
 #include "lqibe/lqibe.h"
 
-#define NFAM 12
-static const char* FAM[NFAM] = {"pairing", "g1-arith", "g2-arith", "gt-exp", "encoding", "hashing", "wkdibe-keys-enc-dec", "wkdibe-sign-verify", "wkdibe-marshal", "lqibe", "prepared-pairing", "pairing-sum"};
-#define L 3
+#define NFAM 14
+static const char* FAM[NFAM] = {"pairing", "g1-arith", "g2-arith", "gt-exp", "encoding", "hashing", "wkdibe-keys-enc-dec", "wkdibe-sign-verify", "wkdibe-marshal", "lqibe", "prepared-pairing", "pairing-sum",
+                                "wkdibe-precomputed-adjust", "wkdibe-nondelegable"};
+#define L 4
+static thread_local int t_fam = -1;
 
 // per-thread PRNG (the library callback has no context argument)
 static thread_local uint64_t t_rng;
@@ -35,37 +44,117 @@ static uint64_t fnv(uint64_t h, const void* p, size_t n) { const uint8_t* b = (c
 struct Shared {
     embedded_pairing_wkdibe_params_t p; embedded_pairing_wkdibe_g1_t h[L]; embedded_pairing_wkdibe_masterkey_t m;
     embedded_pairing_wkdibe_secretkey_t sk; embedded_pairing_wkdibe_freeslot_t b[L];
+    embedded_pairing_wkdibe_secretkey_t skfree; embedded_pairing_wkdibe_freeslot_t bfree[L];      // all slots free
+    embedded_pairing_wkdibe_secretkey_t ndsk; embedded_pairing_wkdibe_freeslot_t ndb[L];          // nondelegable_qualifykey(skfree, alf)
     embedded_pairing_wkdibe_attribute_t at[1]; embedded_pairing_wkdibe_attributelist_t al;
+    // lists with identities >= r, >= 2r, and hidden entries carrying arbitrary bits: legal inputs, and the ones a library that
+    // "normalises" its inputs in place would write to
+    embedded_pairing_wkdibe_attribute_t atf[3]; embedded_pairing_wkdibe_attributelist_t alf;
+    embedded_pairing_wkdibe_attribute_t att[3]; embedded_pairing_wkdibe_attributelist_t alt;
+    embedded_pairing_wkdibe_precomputed_t pref;
+    embedded_pairing_wkdibe_scalar_t msg;                                                          // message scalar >= r
+    embedded_pairing_core_bigint_256_t kbig;                                                       // group scalar >= r (2^256-1)
     embedded_pairing_bls12_381_g2prepared_t prep; embedded_pairing_bls12_381_g2affine_t q; embedded_pairing_bls12_381_g1affine_t pt;
+    embedded_pairing_bls12_381_fq12_t gt;
     embedded_pairing_lqibe_params_t lp; embedded_pairing_lqibe_masterkey_t lm; embedded_pairing_lqibe_id_t id; embedded_pairing_lqibe_secretkey_t lsk;
+    embedded_pairing_lqibe_masterkey_t lmbig;                                                      // master scalar >= r (unmarshalled)
+    embedded_pairing_lqibe_idhash_t ih;
     uint8_t params_bytes[4096]; size_t params_len;
+    uint8_t hashbytes[96];
 };
-static Shared S;
+static Shared* g_S;
+static Shared* g_snap;
+static size_t g_maplen;
+#define S (*g_S)
+
+struct Field { const char* name; size_t off, len; };
+#define FLD(f) { #f, offsetof(Shared, f), sizeof(((Shared*) 0)->f) }
+static const Field FIELDS[] = { FLD(p), FLD(h), FLD(m), FLD(sk), FLD(b), FLD(skfree), FLD(bfree), FLD(ndsk), FLD(ndb), FLD(at), FLD(al), FLD(atf), FLD(alf), FLD(att), FLD(alt), FLD(pref), FLD(msg), FLD(kbig),
+                                FLD(prep), FLD(q), FLD(pt), FLD(gt), FLD(lp), FLD(lm), FLD(id), FLD(lsk), FLD(lmbig), FLD(ih), FLD(params_bytes), FLD(params_len), FLD(hashbytes) };
+
+static int check_inputs(const char* phase) {
+    int changed = 0;
+    const uint8_t* a = (const uint8_t*) g_S; const uint8_t* b = (const uint8_t*) g_snap;
+    for (size_t i = 0; i < sizeof FIELDS / sizeof FIELDS[0]; i++) {
+        const Field& f = FIELDS[i];
+        if (memcmp(a + f.off, b + f.off, f.len) != 0) {
+            size_t o = 0; while (a[f.off + o] == b[f.off + o]) o++;
+            printf("INPUT-CHANGED phase=%s field=%s offset=%zu\n", phase, f.name, o);
+            changed++;
+        }
+    }
+    return changed;
+}
+
+static void on_write_fault(int sig, siginfo_t* si, void* ctx) {
+    (void) sig; (void) ctx;
+    char msg[200];
+    const char* fam = (t_fam >= 0 && t_fam < NFAM) ? FAM[t_fam] : "init";
+    uintptr_t a = (uintptr_t) si->si_addr, base = (uintptr_t) g_S;
+    const char* fld = "outside-shared-inputs";
+    if (a >= base && a < base + sizeof(Shared)) for (size_t i = 0; i < sizeof FIELDS / sizeof FIELDS[0]; i++) if (a - base >= FIELDS[i].off && a - base < FIELDS[i].off + FIELDS[i].len) fld = FIELDS[i].name;
+    int n = snprintf(msg, sizeof msg, "\nWRITE-TO-SHARED-INPUT family=%s field=%s\n", fam, fld);
+    ssize_t r = write(1, msg, (size_t) n); (void) r;
+    _exit(78);
+}
 
 static void init_shared(uint64_t seed) {
     t_rng = seed | 1;
+    size_t pg = (size_t) sysconf(_SC_PAGESIZE);
+    g_maplen = ((sizeof(Shared) + pg - 1) / pg) * pg;
+    g_S = (Shared*) mmap(NULL, g_maplen, PROT_READ | PROT_WRITE, MAP_PRIVATE | MAP_ANONYMOUS, -1, 0);
+    g_snap = (Shared*) malloc(sizeof(Shared));
+    if (g_S == MAP_FAILED || !g_snap) { fprintf(stderr, "mmap failed\n"); exit(3); }
     memset(&S, 0, sizeof S);
-    S.p.h = S.h; S.sk.b = S.b;
+    S.p.h = S.h; S.sk.b = S.b; S.skfree.b = S.bfree; S.ndsk.b = S.ndb;
     embedded_pairing_wkdibe_setup(&S.p, &S.m, L, true, prng);
     memset(&S.at[0], 0, sizeof S.at[0]); S.at[0].idx = 1; prng(&S.at[0].id, 32);
     S.al.attrs = S.at; S.al.length = 1; S.al.omitAllFromKeysUnlessPresent = false;
     embedded_pairing_wkdibe_keygen(&S.sk, &S.p, &S.m, &S.al, prng);
+    embedded_pairing_wkdibe_attributelist_t none; none.attrs = NULL; none.length = 0; none.omitAllFromKeysUnlessPresent = false;
+    embedded_pairing_wkdibe_keygen(&S.skfree, &S.p, &S.m, &none, prng);
+    memset(S.atf, 0, sizeof S.atf); memset(S.att, 0, sizeof S.att);
+    // from: slot 0 = 2^256-1 (>= 2r), slot 2 = random with the top bits set (>= r), slot 3 hidden with all-ones id bits
+    S.atf[0].idx = 0; memset(&S.atf[0].id, 0xff, 32);
+    S.atf[1].idx = 2; prng(&S.atf[1].id, 32); ((uint8_t*) &S.atf[1].id)[31] |= 0xc0;
+    S.atf[2].idx = 3; memset(&S.atf[2].id, 0xff, 32); S.atf[2].omitFromKeys = true;
+    S.alf.attrs = S.atf; S.alf.length = 3; S.alf.omitAllFromKeysUnlessPresent = false;
+    // to: slot 0 = another value >= r, slot 1 small, slot 2 hidden carrying the bits slot 2 has in `from`
+    S.att[0].idx = 0; memset(&S.att[0].id, 0xfe, 32);
+    S.att[1].idx = 1; ((uint8_t*) &S.att[1].id)[0] = 7;
+    S.att[2].idx = 2; memcpy(&S.att[2].id, &S.atf[1].id, 32); S.att[2].omitFromKeys = true;
+    S.alt.attrs = S.att; S.alt.length = 3; S.alt.omitAllFromKeysUnlessPresent = false;
+    embedded_pairing_wkdibe_precompute(&S.pref, &S.p, &S.alf);
+    embedded_pairing_wkdibe_nondelegable_qualifykey(&S.ndsk, &S.p, &S.skfree, &S.alf);
+    memset(&S.msg, 0xff, sizeof S.msg);
+    memset(&S.kbig, 0xff, sizeof S.kbig);
+    embedded_pairing_bls12_381_gt_multiply(&S.gt, embedded_pairing_bls12_381_gt_generator, (embedded_pairing_core_bigint_256_t*) &S.at[0].id);
+    { uint8_t mb[32]; memset(mb, 0xff, sizeof mb); embedded_pairing_lqibe_masterkey_unmarshal(&S.lmbig, mb, true, false); }
+    prng(S.hashbytes, sizeof S.hashbytes);
     embedded_pairing_bls12_381_g2_t q; embedded_pairing_bls12_381_g2_random(&q, prng);
     embedded_pairing_bls12_381_g2affine_from_projective(&S.q, &q);
     embedded_pairing_bls12_381_g2prepared_prepare(&S.prep, &S.q);
     embedded_pairing_bls12_381_g1_t g; embedded_pairing_bls12_381_g1_random(&g, prng);
     embedded_pairing_bls12_381_g1affine_from_projective(&S.pt, &g);
     embedded_pairing_lqibe_setup(&S.lp, &S.lm, prng);
-    embedded_pairing_lqibe_idhash_t ih; prng(ih.hash, sizeof ih.hash);
-    embedded_pairing_lqibe_compute_id_from_hash(&S.id, &ih);
+    prng(S.ih.hash, sizeof S.ih.hash);
+    embedded_pairing_lqibe_compute_id_from_hash(&S.id, &S.ih);
     embedded_pairing_lqibe_keygen(&S.lsk, &S.lm, &S.id);
     S.params_len = embedded_pairing_wkdibe_params_get_marshalled_length(&S.p, true);
     embedded_pairing_wkdibe_params_marshal(S.params_bytes, &S.p, true);
+    memcpy(g_snap, g_S, sizeof(Shared));
+}
+static void restore_shared(void) { memcpy(g_S, g_snap, sizeof(Shared)); }
+static void protect_shared(void) {
+    struct sigaction sa; memset(&sa, 0, sizeof sa); sa.sa_sigaction = on_write_fault; sa.sa_flags = SA_SIGINFO;
+    sigaction(SIGSEGV, &sa, NULL); sigaction(SIGBUS, &sa, NULL);
+    if (mprotect(g_S, g_maplen, PROT_READ) != 0) { fprintf(stderr, "mprotect failed\n"); exit(3); }
 }
 
 // ---------------------------------------------------------------- one operation on thread-private outputs
 static uint64_t run_op(int fam, uint64_t seed) {
     t_rng = seed * 0x9e3779b97f4a7c15ull | 1;
+    t_fam = fam;
     uint64_t d = 0xcbf29ce484222325ull;
     embedded_pairing_core_bigint_256_t k; prng(&k, sizeof k);
     switch (fam) {
@@ -81,21 +170,29 @@ static uint64_t run_op(int fam, uint64_t seed) {
         embedded_pairing_bls12_381_g1_multiply_affine(&a, &S.pt, &k);
         embedded_pairing_bls12_381_g1_double(&b, &a); embedded_pairing_bls12_381_g1_add(&b, &b, &a); embedded_pairing_bls12_381_g1_add_mixed(&b, &b, &S.pt);
         embedded_pairing_bls12_381_g1affine_from_projective(&aa, &b);
-        d = fnv(d, &aa.x, sizeof aa.x); d = fnv(d, &aa.y, sizeof aa.y); break;
+        d = fnv(d, &aa.x, sizeof aa.x); d = fnv(d, &aa.y, sizeof aa.y);
+        embedded_pairing_bls12_381_g1_multiply_affine(&a, &S.pt, &S.kbig);      // shared scalar >= r
+        embedded_pairing_bls12_381_g1affine_from_projective(&aa, &a);
+        d = fnv(d, &aa.x, sizeof aa.x); break;
     }
     case 2: {
         embedded_pairing_bls12_381_g2_t a, b; embedded_pairing_bls12_381_g2affine_t aa;
         embedded_pairing_bls12_381_g2_multiply_affine(&a, &S.q, &k);
         embedded_pairing_bls12_381_g2_double(&b, &a); embedded_pairing_bls12_381_g2_add(&b, &b, &a);
         embedded_pairing_bls12_381_g2affine_from_projective(&aa, &b);
-        d = fnv(d, &aa.x, sizeof aa.x); d = fnv(d, &aa.y, sizeof aa.y); break;
+        d = fnv(d, &aa.x, sizeof aa.x); d = fnv(d, &aa.y, sizeof aa.y);
+        embedded_pairing_bls12_381_g2_multiply_affine(&a, &S.q, &S.kbig);
+        embedded_pairing_bls12_381_g2affine_from_projective(&aa, &a);
+        d = fnv(d, &aa.x, sizeof aa.x); break;
     }
     case 3: {
         embedded_pairing_bls12_381_fq12_t e, f; embedded_pairing_core_bigint_256_t y;
         embedded_pairing_bls12_381_gt_multiply(&e, embedded_pairing_bls12_381_gt_generator, &k);
         embedded_pairing_bls12_381_gt_multiply_random(&f, &y, &e, prng);
         embedded_pairing_bls12_381_gt_add(&e, &e, &f); embedded_pairing_bls12_381_gt_double(&e, &e);
-        d = fnv(d, &e, sizeof e); d = fnv(d, &y, sizeof y); break;
+        d = fnv(d, &e, sizeof e); d = fnv(d, &y, sizeof y);
+        embedded_pairing_bls12_381_gt_multiply(&e, &S.gt, &S.kbig); embedded_pairing_bls12_381_gt_negate(&f, &S.gt);
+        d = fnv(d, &e, sizeof e); d = fnv(d, &f, sizeof f); break;
     }
     case 4: {
         embedded_pairing_bls12_381_g2_t a; embedded_pairing_bls12_381_g2affine_t aa, bb; uint8_t buf[192];
@@ -108,6 +205,10 @@ static uint64_t run_op(int fam, uint64_t seed) {
     }
     case 5: {
         uint8_t h[96]; prng(h, sizeof h);
+        { embedded_pairing_bls12_381_g1affine_t sa; embedded_pairing_bls12_381_g2affine_t sb; embedded_pairing_core_bigint_256_t sz; embedded_pairing_lqibe_id_t sid;
+          embedded_pairing_bls12_381_g1affine_from_hash(&sa, S.hashbytes); embedded_pairing_bls12_381_g2affine_from_hash(&sb, S.hashbytes); embedded_pairing_bls12_381_zp_from_hash(&sz, S.hashbytes);
+          embedded_pairing_lqibe_compute_id_from_hash(&sid, &S.ih);
+          d = fnv(d, &sa.x, sizeof sa.x); d = fnv(d, &sb.x, sizeof sb.x); d = fnv(d, &sz, sizeof sz); d = fnv(d, &sid.q.x, sizeof sid.q.x); }
         embedded_pairing_bls12_381_g1affine_t a; embedded_pairing_bls12_381_g2affine_t b; embedded_pairing_core_bigint_256_t z; embedded_pairing_lqibe_id_t id; embedded_pairing_lqibe_idhash_t ih;
         embedded_pairing_bls12_381_g1affine_from_hash(&a, h); embedded_pairing_bls12_381_g2affine_from_hash(&b, h); embedded_pairing_bls12_381_zp_from_hash(&z, h);
         memcpy(ih.hash, h, 48); embedded_pairing_lqibe_compute_id_from_hash(&id, &ih);
@@ -128,7 +229,13 @@ static uint64_t run_op(int fam, uint64_t seed) {
     case 7: {
         embedded_pairing_wkdibe_signature_t sg; embedded_pairing_wkdibe_sign(&sg, &S.p, &S.sk, &S.al, &k, prng);
         bool ok = embedded_pairing_wkdibe_verify(&S.p, &S.al, &sg, &k);
-        d = fnv(d, &sg, sizeof sg); d = fnv(d, &ok, 1); break;
+        d = fnv(d, &sg, sizeof sg); d = fnv(d, &ok, 1);
+        // shared message >= r, list with ids >= r extending the all-free key
+        embedded_pairing_wkdibe_attribute_t a2[2]; a2[0] = S.atf[0]; a2[1] = S.atf[1];
+        embedded_pairing_wkdibe_attributelist_t l2; l2.attrs = a2; l2.length = 2; l2.omitAllFromKeysUnlessPresent = false;
+        embedded_pairing_wkdibe_sign(&sg, &S.p, &S.skfree, &l2, &S.msg, prng);
+        bool ok3 = embedded_pairing_wkdibe_verify(&S.p, &l2, &sg, &S.msg);
+        d = fnv(d, &sg, sizeof sg); d = fnv(d, &ok3, 1); break;
     }
     case 8: {
         embedded_pairing_wkdibe_params_t p; embedded_pairing_wkdibe_g1_t h[L]; p.h = h;
@@ -142,7 +249,35 @@ static uint64_t run_op(int fam, uint64_t seed) {
         embedded_pairing_lqibe_encrypt(&ct, k1, 32, &S.lp, &S.id, hashf, prng);
         embedded_pairing_lqibe_decrypt(k2, 32, &ct, &S.lsk, &S.id, hashf);
         bool ok = memcmp(k1, k2, 32) == 0;
-        d = fnv(d, k1, 32); d = fnv(d, &ok, 1); break;
+        d = fnv(d, k1, 32); d = fnv(d, &ok, 1);
+        embedded_pairing_lqibe_secretkey_t sk2; embedded_pairing_lqibe_keygen(&sk2, &S.lmbig, &S.id);       // master scalar >= r
+        uint8_t mb[32]; embedded_pairing_lqibe_masterkey_marshal(mb, &S.lmbig, true);
+        d = fnv(d, &sk2.sq.x, sizeof sk2.sq.x); d = fnv(d, &sk2.sq.y, sizeof sk2.sq.y); d = fnv(d, mb, 32); break;
+    }
+    case 12: {
+        embedded_pairing_wkdibe_precomputed_t pre, pre2;
+        embedded_pairing_wkdibe_precompute(&pre, &S.p, &S.alf);
+        embedded_pairing_wkdibe_adjust_precomputed(&pre, &S.p, &S.alf, &S.alt);
+        pre2 = S.pref; embedded_pairing_wkdibe_adjust_precomputed(&pre2, &S.p, &S.alf, &S.alt);
+        embedded_pairing_wkdibe_gt_t msg; embedded_pairing_wkdibe_random_gt(&msg, prng);
+        embedded_pairing_wkdibe_ciphertext_t ct; embedded_pairing_wkdibe_encrypt_precomputed(&ct, &msg, &S.p, &S.pref, prng);
+        embedded_pairing_wkdibe_signature_t sg; embedded_pairing_wkdibe_sign_precomputed(&sg, &S.p, &S.ndsk, NULL, &S.pref, &S.msg, prng);
+        bool ok = embedded_pairing_wkdibe_verify_precomputed(&S.p, &S.pref, &sg, &S.msg);
+        d = fnv(d, &pre, sizeof pre); d = fnv(d, &pre2, sizeof pre2); d = fnv(d, &ct, sizeof ct); d = fnv(d, &sg, sizeof sg); d = fnv(d, &ok, 1); break;
+    }
+    case 13: {
+        embedded_pairing_wkdibe_secretkey_t a, q, rs; embedded_pairing_wkdibe_freeslot_t b1[L], b2[L], b3[L]; a.b = b1; q.b = b2; rs.b = b3;
+        embedded_pairing_wkdibe_nondelegable_keygen(&a, &S.p, &S.m, &S.alf);
+        embedded_pairing_wkdibe_nondelegable_qualifykey(&q, &S.p, &S.skfree, &S.alf);
+        embedded_pairing_wkdibe_adjust_nondelegable(&q, &S.skfree, &S.alf, &S.alt);
+        embedded_pairing_wkdibe_resamplekey(&rs, &S.p, &S.pref, &S.ndsk, (seed & 1) != 0, prng);
+        embedded_pairing_wkdibe_gt_t msg, dec; embedded_pairing_wkdibe_random_gt(&msg, prng);
+        embedded_pairing_wkdibe_ciphertext_t ct; embedded_pairing_wkdibe_encrypt(&ct, &msg, &S.p, &S.alf, prng);
+        embedded_pairing_wkdibe_decrypt(&dec, &ct, &S.ndsk);
+        bool ok = embedded_pairing_bls12_381_gt_equal(&dec, &msg);
+        embedded_pairing_wkdibe_decrypt_master(&dec, &ct, &S.m);
+        bool ok2 = embedded_pairing_bls12_381_gt_equal(&dec, &msg);
+        d = fnv(d, &a.a0, sizeof a.a0); d = fnv(d, &q.a0, sizeof q.a0); d = fnv(d, &q.l, sizeof q.l); d = fnv(d, &rs.a1, sizeof rs.a1); d = fnv(d, &ok, 1); d = fnv(d, &ok2, 1); break;
     }
     case 10: {
         embedded_pairing_bls12_381_g1_t a; embedded_pairing_bls12_381_g1affine_t aa; embedded_pairing_bls12_381_fq12_t e;
@@ -151,14 +286,16 @@ static uint64_t run_op(int fam, uint64_t seed) {
         embedded_pairing_bls12_381_prepared_pairing(&e, &aa, &S.prep);
         d = fnv(d, &e, sizeof e); break;
     }
-    default: {
+    case 11: {
         embedded_pairing_bls12_381_affine_pair_t ap; embedded_pairing_bls12_381_prepared_pair_t pp; embedded_pairing_bls12_381_fq12_t e;
         ap.g1 = &S.pt; ap.g2 = (embedded_pairing_bls12_381_g2affine_t*) embedded_pairing_bls12_381_g2affine_generator;
         pp.g1 = (embedded_pairing_bls12_381_g1affine_t*) embedded_pairing_bls12_381_g1affine_generator; pp.g2 = &S.prep;
         embedded_pairing_bls12_381_pairing_sum(&e, &ap, 1, &pp, 1);
         d = fnv(d, &e, sizeof e); break;
     }
+    default: break;
     }
+    t_fam = -1;
     return d;
 }
 
@@ -170,7 +307,8 @@ static int mode_syscalls(int n, uint64_t seed) {
     ssize_t r = write(2, b, sizeof b - 1); (void) r;
     for (int i = 0; i < n; i++) for (int f = 0; f < NFAM; f++) acc ^= run_op(f, seed + (uint64_t) i * 131 + (uint64_t) f);
     r = write(2, e, sizeof e - 1); (void) r;
-    printf("ops=%d digest=%016llx\n", n * NFAM, (unsigned long long) acc);
+    int ic = check_inputs("sequential");
+    printf("ops=%d digest=%016llx inputs_changed=%d\n", n * NFAM, (unsigned long long) acc, ic);
     return 0;
 }
 
@@ -188,7 +326,8 @@ static int mode_snapshot(const char* file, int n, uint64_t seed) {
     for (int i = 0; i < n; i++) for (int fa = 0; fa < NFAM; fa++) acc ^= run_op(fa, seed + (uint64_t) i * 131 + (uint64_t) fa);
     int changed = 0;
     for (int i = 0; i < ns; i++) if (memcmp(sym[i].copy, (void*) sym[i].addr, sym[i].size) != 0) { printf("CHANGED %s size=%zu\n", sym[i].name, sym[i].size); changed++; }
-    printf("symbols=%d changed=%d ops=%d digest=%016llx\n", ns, changed, n * NFAM, (unsigned long long) acc);
+    int ic = check_inputs("sequential");
+    printf("symbols=%d changed=%d ops=%d digest=%016llx inputs_changed=%d\n", ns, changed, n * NFAM, (unsigned long long) acc, ic);
     return 0;
 }
 
@@ -212,8 +351,9 @@ static void* worker(void* p) {
     return NULL;
 }
 
-static int mode_threads(int T, int n, uint64_t seed) {
+static int mode_threads(int T, int n, uint64_t seed, bool ro) {
     init_shared(seed);
+    if (ro) protect_shared();
     Rec* recs = (Rec*) calloc((size_t) T * (size_t) n, sizeof(Rec));
     uint64_t x = seed * 0x9e3779b97f4a7c15ull | 1;
     for (int t = 0; t < T; t++) for (int i = 0; i < n; i++) {
@@ -224,7 +364,11 @@ static int mode_threads(int T, int n, uint64_t seed) {
     }
     // sequential replay first: expected digests
     uint64_t* expect = (uint64_t*) malloc(sizeof(uint64_t) * (size_t) T * (size_t) n);
+    if (ro) for (int rep = 0; rep < 2; rep++) for (int f = 0; f < NFAM; f++) run_op(f, seed + (uint64_t) rep);     // every family at least twice
     for (int j = 0; j < T * n; j++) expect[j] = run_op(recs[j].fam, recs[j].seed);
+    int ic = check_inputs("sequential");
+    // start the concurrent phase from pristine inputs, so that a first-use write to an input happens while other threads read it
+    if (!ro) restore_shared();
     pthread_barrier_init(&g_bar, NULL, (unsigned) T);
     pthread_t th[64]; TArg args[64];
     for (int t = 0; t < T; t++) { args[t].id = t; args[t].n = n; args[t].seed = seed; args[t].recs = recs + t * n; pthread_create(&th[t], NULL, worker, &args[t]); }
@@ -241,14 +385,16 @@ static int mode_threads(int T, int n, uint64_t seed) {
     int distinct = 0;
     printf("overlap");
     for (int i = 0; i < NFAM; i++) for (int j = i; j < NFAM; j++) if (overlap[i][j]) { distinct++; printf(" %s+%s=%d", FAM[i], FAM[j], overlap[i][j]); }
-    printf("\nthreads=%d ops=%d mismatches=%d overlapping_pairs=%ld distinct_family_pairs=%d\n", T, T * n, bad, pairs, distinct);
+    ic += check_inputs("concurrent");
+    printf("\nthreads=%d ops=%d mismatches=%d overlapping_pairs=%ld distinct_family_pairs=%d inputs_changed=%d readonly=%d\n", T, T * n, bad, pairs, distinct, ic, (int) ro);
     return 0;
 }
 
 int main(int argc, char** argv) {
     if (argc >= 4 && !strcmp(argv[1], "--syscalls")) return mode_syscalls(atoi(argv[2]), strtoull(argv[3], NULL, 10));
     if (argc >= 5 && !strcmp(argv[1], "--snapshot")) return mode_snapshot(argv[2], atoi(argv[3]), strtoull(argv[4], NULL, 10));
-    if (argc >= 5 && !strcmp(argv[1], "--threads")) return mode_threads(atoi(argv[2]), atoi(argv[3]), strtoull(argv[4], NULL, 10));
+    if (argc >= 5 && !strcmp(argv[1], "--threads")) return mode_threads(atoi(argv[2]), atoi(argv[3]), strtoull(argv[4], NULL, 10), false);
+    if (argc >= 5 && !strcmp(argv[1], "--roinputs")) return mode_threads(atoi(argv[2]), atoi(argv[3]), strtoull(argv[4], NULL, 10), true);
     fprintf(stderr, "usage\n");
     return 3;
 }
